@@ -71,8 +71,8 @@ def prove(hyps, goal, budget_s=20.0, want_model=True):
     uf = T.has_uf(list(hyps) + [goal])
     plan = []
     if not uf:
-        plan.append(("nlsat", min(budget_s, 5.0)))
-    plan.append(("default", min(budget_s, 3.0)))
+        plan.append(("nlsat", min(budget_s, 2.0)))
+    plan.append(("default", min(budget_s, 2.0)))
     if not uf:
         plan.append(("nlsat", budget_s))
     plan.append(("default", budget_s))
@@ -104,7 +104,7 @@ def discharge(ob, ctx, budget_s=20.0):
         if ob.under_cut:
             full = [f for f, _ in ctx.facts[: ob.nfacts]] + list(ctx.cutdefs[: ob.ncuts])
             ax2 = relevant_axioms(ctx.axioms, full + [g])
-            st2, m2, be2, dt2 = prove(full + ax2, g, budget_s)
+            st2, m2, be2, dt2 = prove(full + ax2, g, max(1.0, budget_s / 2))
             total += dt2
             if st2 == "unsat":
                 backend = be2 + "(uncut)"
